@@ -1252,6 +1252,11 @@ func buildByReading(opts *neat.Options) (*genetics.Population, error) {
 	return genetics.ReadPopulation(strings.NewReader(b.String()), opts)
 }
 
+// sharedOptions, when non-nil, makes every run of a process with the same start population and configuration row use
+// the SAME options value (as an application that evolves several times with the options it loaded once): whatever a
+// run writes into the caller's options is seen by the next run. C17 switches it on.
+var sharedOptions map[string]*neat.Options
+
 // startGenomes, when non-nil, makes every run of a process start from the SAME start genome object per
 // seed name (as an application that runs several evolutions from one loaded genome does): whatever a
 // run leaves behind in the caller's genome is seen by the next run. C17 switches it on.
@@ -1320,21 +1325,30 @@ func runEpochBodyOpts(c *Ctx, sc EpochScenario, oracles oracleSet, x *Exec, cnt 
 		defer epochVerbose(sc)()
 	}
 	row := cfgRows[sc.Cfg]
-	r := &popRun{c: c, sc: sc, row: row, opts: row.Options(), oracles: oracles, x: x, cnt: cnt, keepKeys: keepKeys}
-	if tweak != nil {
-		tweak(r.opts)
+	r := &popRun{c: c, sc: sc, row: row, oracles: oracles, x: x, cnt: cnt, keepKeys: keepKeys}
+	optKey := fmt.Sprintf("%s/%d", sc.Seed, sc.Cfg)
+	if o, ok := sharedOptions[optKey]; ok {
+		r.opts = o // the very options value an earlier run of this process was given
+	} else {
+		r.opts = row.Options()
+		if tweak != nil {
+			tweak(r.opts)
+		}
+		if sc.Seed == "rand" || sc.Seed == "randrec" {
+			// Random populations have no common gene prefix; single-point crossover of such
+			// parents can yield a gene-less child (known finding, decided at operator level by
+			// C01/C04 and by the dedicated C02 scenario). The generic runs keep random
+			// populations but route single-point matings to multipoint-avg so that every
+			// other behaviour of such populations is still explored.
+			r.opts.MateMultipointAvgProb += r.opts.MateSinglepointProb
+			r.opts.MateSinglepointProb = 0
+		}
+		if sharedOptions != nil {
+			sharedOptions[optKey] = r.opts
+		}
 	}
 	if sc.Seed == "randsp" {
 		r.knownGeneless = true
-	}
-	if sc.Seed == "rand" || sc.Seed == "randrec" {
-		// Random populations have no common gene prefix; single-point crossover of such
-		// parents can yield a gene-less child (known finding, decided at operator level by
-		// C01/C04 and by the dedicated C02 scenario). The generic runs keep random
-		// populations but route single-point matings to multipoint-avg so that every
-		// other behaviour of such populations is still explored.
-		r.opts.MateMultipointAvgProb += r.opts.MateSinglepointProb
-		r.opts.MateSinglepointProb = 0
 	}
 	ctx := r.opts.NeatContext()
 	pop, err := r.construct()
